@@ -102,6 +102,6 @@ for _t, _c in _TQ_OPTS:
     UNITS.append(_v)
 for _u in UNITS:
     if _u['name'] == 'mpz_tdiv_qr_dr':
-        _u['selftest'] = [('__gmpz_tdiv_qr', r'if \(dp == rp \|\| dp == qp\)', 'if (dp == qp)'), ('__gmpz_tdiv_qr', r'ql -=  qp\[ql - 1\] == 0;', ';')]
+        _u['selftest'] = [('__gmpz_tdiv_qr', r'if \(dp == rp \|\| dp == qp\)', 'if (dp == qp)'), ('__gmpz_tdiv_qr', r'ql -= +qp\[ql - 1\] == 0;', ';')]
     if _u['name'] == 'mpz_tdiv_qr_nq':
         _u['selftest'] = [('__gmpz_tdiv_qr', r'if \(np == rp \|\| np == qp\)', 'if (np == rp)')]
